@@ -32,6 +32,7 @@ func extraFacts(lf *leanFile) {
 	ociFacts(lf)
 	retryFacts(lf)
 	remoteFacts(lf)
+	referrersFlowFacts(lf)
 	refFacts(lf)
 	copyFacts(lf)
 }
